@@ -581,7 +581,7 @@ impl<S: Storage, L: Layout> TensorBase<S, L> {
     {
         let data = data.into_storage();
         let layout = L::from_shape(shape);
-        if layout.min_data_len() != data.len() {
+        if layout.checked_min_data_len() != Some(data.len()) {
             return Err(FromDataError::StorageLengthMismatch);
         }
         Ok(TensorBase { data, layout })
@@ -592,7 +592,12 @@ impl<S: Storage, L: Layout> TensorBase<S, L> {
     /// Panics if the storage length is too short for the layout, or the storage
     /// is mutable and the layout may map multiple indices to the same offset.
     pub fn from_storage_and_layout(data: S, layout: L) -> TensorBase<S, L> {
-        assert!(data.len() >= layout.min_data_len());
+        assert!(
+            layout
+                .checked_min_data_len()
+                .is_some_and(|min_len| data.len() >= min_len),
+            "storage is too short for layout"
+        );
         assert!(!S::MUTABLE || !may_have_internal_overlap(layout.shape(), layout.strides()));
         TensorBase { data, layout }
     }
@@ -627,7 +632,10 @@ impl<S: Storage, L: Layout> TensorBase<S, L> {
     {
         let layout = L::from_shape_and_strides(shape, strides, OverlapPolicy::DisallowOverlap)?;
         let data = data.into_storage();
-        if layout.min_data_len() > data.len() {
+        if layout
+            .checked_min_data_len()
+            .is_none_or(|min_len| min_len > data.len())
+        {
             return Err(FromDataError::StorageTooShort);
         }
         Ok(TensorBase { data, layout })
@@ -1179,9 +1187,10 @@ impl<T, L: Clone + Layout> TensorBase<Vec<T>, L> {
     {
         let mut new_layout = self.layout.clone();
         new_layout.resize_dim(axis, new_size);
-        let new_data_len = new_layout.min_data_len();
 
-        let has_capacity = new_data_len <= self.data.capacity()
+        let has_capacity = new_layout
+            .checked_min_data_len()
+            .is_some_and(|new_data_len| new_data_len <= self.data.capacity())
             && !may_have_internal_overlap(new_layout.shape(), new_layout.strides());
 
         has_capacity.then_some(new_layout)
@@ -1763,7 +1772,10 @@ impl<'a, T, L: Clone + Layout> TensorBase<ViewData<'a, T>, L> {
         L: MutLayout,
     {
         let layout = L::from_shape_and_strides(shape, strides, OverlapPolicy::AllowOverlap)?;
-        if layout.min_data_len() > data.as_ref().len() {
+        if layout
+            .checked_min_data_len()
+            .is_none_or(|min_len| min_len > data.as_ref().len())
+        {
             return Err(FromDataError::StorageTooShort);
         }
         Ok(TensorBase {
